@@ -45,33 +45,66 @@ Proof.
 Qed.
 
 (* ---- redundant parentheses, covered constructors *)
-Lemma full_paren_core e : core_expr e = true -> core_expr (full_paren e) = true.
-Proof.
-  induction e; cbn [core_expr full_paren]; intros H; try discriminate; auto.
-  apply andb_true_iff in H as [H1 H2]. rewrite IHe1, IHe2 by assumption. reflexivity.
-Qed.
+Lemma dangling_fp e : dangling (full_paren e) = false.
+Proof. destruct e; reflexivity. Qed.
 
-Lemma full_paren_wpx e : core_expr e = true -> forall k last, wpx k last (full_paren e) = true.
+Lemma fp_all : forall n e, (esize e < n)%nat -> core_expr e = true ->
+  core_expr (full_paren e) = true /\ (forall k last, wpx k last (full_paren e) = true) /\
+  strip_paren (strip_spans (full_paren e)) = strip_paren (strip_spans e).
 Proof.
-  induction e; cbn [core_expr]; intros H k last; try discriminate; cbn [full_paren wpx]; auto.
-  - apply andb_true_iff in H as [H1 H2]. rewrite IHe1, IHe2 by assumption. reflexivity.
-  - rewrite IHe by assumption. reflexivity.
-  - rewrite IHe by assumption. reflexivity.
-Qed.
-
-Lemma strip_paren_full e : core_expr e = true -> strip_paren (strip_spans (full_paren e)) = strip_paren (strip_spans e).
-Proof.
-  induction e; cbn [core_expr]; intros H; try discriminate; cbn [full_paren strip_spans strip_paren]; auto.
-  - apply andb_true_iff in H as [H1 H2]. rewrite IHe1, IHe2 by assumption. reflexivity.
-  - rewrite IHe by assumption. reflexivity.
-  - rewrite IHe by assumption. reflexivity.
+  induction n as [|n IH]; [intros; lia|].
+  intros e Hsz Hc.
+  destruct e; cbn [core_expr] in Hc; try discriminate; cbn [esize] in Hsz;
+    try (repeat split; reflexivity).
+  - (* EParen *)
+    destruct (IH e ltac:(lia) Hc) as (A & B & C).
+    cbn [full_paren core_expr wpx strip_spans strip_paren]. rewrite A, B, C. repeat split; reflexivity.
+  - (* EIf *)
+    apply andb_true_iff in Hc as [Hc Hc3]. apply andb_true_iff in Hc as [Hc1 Hc2].
+    destruct (IH e1 ltac:(lia) Hc1) as (A1 & B1 & C1). destruct (IH e2 ltac:(lia) Hc2) as (A2 & B2 & C2).
+    destruct e3 as [e3|]; cbn [osz] in Hsz.
+    + destruct (IH e3 ltac:(lia) Hc3) as (A3 & B3 & C3).
+      cbn [full_paren core_expr wpx strip_spans strip_paren option_map dangling andb negb].
+      rewrite A1, A2, A3, !B1, !B2, !B3, C1, C2, C3, dangling_fp. repeat split; reflexivity.
+    + cbn [full_paren core_expr wpx strip_spans strip_paren option_map andb].
+      rewrite A1, A2, !B1, !B2, C1, C2. repeat split; reflexivity.
+  - (* EBinary *)
+    apply andb_true_iff in Hc as [Hc1 Hc2].
+    destruct (IH e1 ltac:(lia) Hc1) as (A1 & B1 & C1). destruct (IH e2 ltac:(lia) Hc2) as (A2 & B2 & C2).
+    cbn [full_paren core_expr wpx strip_spans strip_paren andb].
+    rewrite A1, A2, !B1, !B2, C1, C2. repeat split; reflexivity.
+  - (* EUnary *)
+    destruct (IH e ltac:(lia) Hc) as (A & B & C).
+    cbn [full_paren core_expr wpx strip_spans strip_paren andb]. rewrite A, !B, C. repeat split; reflexivity.
+  - (* EAssert *)
+    destruct a as [asp ac am]. cbn [assert_size] in Hsz.
+    apply andb_true_iff in Hc as [Hc Hcb]. apply andb_true_iff in Hc as [Hc1 Hcm].
+    destruct (IH ac ltac:(lia) Hc1) as (A1 & B1 & C1). destruct (IH e ltac:(lia) Hcb) as (A2 & B2 & C2).
+    destruct am as [em|]; cbn [osz] in Hsz.
+    + destruct (IH em ltac:(lia) Hcm) as (A3 & B3 & C3).
+      cbn [full_paren fp_assert core_expr wpx wp_assert opt_all strip_spans strip_assert strip_paren unp_assert option_map andb].
+      rewrite A1, A2, A3, !B1, !B2, !B3, C1, C2, C3. repeat split; reflexivity.
+    + cbn [full_paren fp_assert core_expr wpx wp_assert opt_all strip_spans strip_assert strip_paren unp_assert option_map andb].
+      rewrite A1, A2, !B1, !B2, C1, C2. repeat split; reflexivity.
+  - destruct (IH e ltac:(lia) Hc) as (A & B & C).
+    cbn [full_paren core_expr wpx strip_spans strip_paren andb]. rewrite A, !B, C. repeat split; reflexivity.
+  - destruct (IH e ltac:(lia) Hc) as (A & B & C).
+    cbn [full_paren core_expr wpx strip_spans strip_paren andb]. rewrite A, !B, C. repeat split; reflexivity.
+  - destruct (IH e ltac:(lia) Hc) as (A & B & C).
+    cbn [full_paren core_expr wpx strip_spans strip_paren andb]. rewrite A, !B, C. repeat split; reflexivity.
+  - destruct (IH e ltac:(lia) Hc) as (A & B & C).
+    cbn [full_paren core_expr wpx strip_spans strip_paren andb]. rewrite A, !B, C. repeat split; reflexivity.
+  - (* EInSuper *)
+    destruct (IH e ltac:(lia) Hc) as (A & B & C).
+    cbn [full_paren core_expr wpx strip_spans strip_paren andb]. rewrite A, !B, C. repeat split; reflexivity.
 Qed.
 
 Theorem redundant_parens_partial : forall e, core_expr e = true ->
   exists e', parse_tree spec_prec (print_tokens (full_paren e)) = Ok e' /\
              strip_paren e' = strip_paren (strip_spans e).
 Proof.
-  intros e Hc. exists (strip_spans (full_paren e)). split.
-  - apply parse_print_roundtrip_partial; [apply full_paren_core; exact Hc|apply full_paren_wpx; exact Hc].
-  - apply strip_paren_full; exact Hc.
+  intros e Hc. destruct (fp_all (S (esize e)) e ltac:(lia) Hc) as (A & B & C).
+  exists (strip_spans (full_paren e)). split.
+  - apply parse_print_roundtrip_partial; [exact A|apply B].
+  - exact C.
 Qed.
